@@ -459,11 +459,13 @@ def rule_shared_state(ctx, ix):
     # check-then-insert caches: `if key not in X: X[key] = ...` on module-level containers is covered above.
     # lru_cache is the only cache
     ctx.instance("C14.shared-state")
-    f = ix.func("tensora.compile._porcelain.cachable_tensor_method").node
-    if [u(d) for d in f.decorator_list] and u(f.decorator_list[0]).startswith(("lru_cache", "functools.lru_cache", "cache")):
-        ctx.ok("C14.shared-state", "compile/_porcelain.py:cachable_tensor_method uses functools.lru_cache (documented thread-safe)")
-    else:
-        ctx.fail("C14.shared-state", "compile/_porcelain.py:cachable_tensor_method uses functools.lru_cache (documented thread-safe)", "kernel cache is not functools.lru_cache")
+    from .core import cached_factory
+
+    try:
+        cf = cached_factory(ix)
+        ctx.ok("C14.shared-state", f"compile/_porcelain.py:{cf.name} uses functools.lru_cache (documented thread-safe)")
+    except AnalysisError:
+        ctx.fail("C14.shared-state", "compile/_porcelain.py:kernel cache uses functools.lru_cache (documented thread-safe)", "kernel cache is not functools.lru_cache")
 
 
 def rule_fresh_engine(ctx, ix):
@@ -490,8 +492,26 @@ def rule_fresh_engine(ctx, ix):
     ctx.instance("C14.fresh-engine")
     key = "compile/_compile_llvm.py:compile_module:engine is local and returned"
     eng = [k for k, v in assigns.items() if v is calls[0]]
-    s = u(f)
-    if eng and f"{eng[0]}.add_module(llvm_module)" in s and f"return {eng[0]}" in s and "llvm_module = llvm.parse_assembly(str(llvm_ir))" in s:
+    params = {a.arg for a in f.args.args}
+
+    def from_this_module(e, depth=0):
+        """Does the expression derive (through local single assignments) from ir_to_llvm(<parameter>)?"""
+        if depth > 6:
+            return False
+        for n in ast.walk(e):
+            if isinstance(n, ast.Call) and u(n.func).split(".")[-1] == "ir_to_llvm" and n.args and isinstance(n.args[0], ast.Name) and n.args[0].id in params:
+                return True
+            if isinstance(n, ast.Name) and n.id in assigns and n.id not in params and from_this_module(assigns[n.id], depth + 1):
+                return True
+        return False
+
+    added = [
+        n
+        for n in ast.walk(f)
+        if isinstance(n, ast.Call) and isinstance(n.func, ast.Attribute) and n.func.attr == "add_module" and eng and u(n.func.value) == eng[0] and n.args and from_this_module(n.args[0])
+    ]
+    returned = [n for n in ast.walk(f) if isinstance(n, ast.Return) and n.value is not None and eng and any(isinstance(x, ast.Name) and x.id == eng[0] for x in ast.walk(n.value))]
+    if eng and added and returned:
         ctx.ok("C14.fresh-engine", key)
     else:
         ctx.fail("C14.fresh-engine", key, "the module is not added to the engine created in this activation, or a different engine is returned")
